@@ -8,7 +8,7 @@
     of any writer in any interleaving. *)
 From BBS Require Import Common.Sx Store.SectorWriter Store.SectorWriterProofs Store.SectorWriterSpec
   Store.SectorWriterCommute Store.SectorWriterInv Store.SectorWriterAccum Store.SectorWriterCommute2
-  Store.SectorWriterDevice Run.R01S.
+  Store.SectorWriterDevice Run.R01S Run.R01SMonBase Run.R01SMonInv Run.R01SMon.
 
 (** Byte ranges handed out by successive allocations are in order and pairwise disjoint,
     start at or above the initial cursor, end within the block; HasSpace is exactly "fits". *)
@@ -188,3 +188,41 @@ Example late_neighbour_example :
        [EAlloc 3; EWrite 0 [1;2;3]%Z; EFlush 0; EAlloc 3; EWrite 1 [4;5]%Z; EWrite 1 [6]%Z; EFlush 1])
   = Some [1;2;3;4;5;6;0;0]%Z.
 Proof. vm_compute. reflexivity. Qed.
+
+(** The monitor is silent on the model's own run: for EVERY input whose sector size is >= 1
+    (the only domain restriction; the harness accepts sector sizes 1..64 only), none of the
+    monitor's five clauses fires on [run01S inp].  So the model satisfies the property as the
+    monitor states it, and the monitor cannot raise a false alarm on an implementation whose
+    observation agrees with the model.  Proof: induction over the event list with a joint
+    invariant of the sector-writer state, the validating chunk readers and the monitor's
+    bookkeeping (Run/R01SMon*.v), on top of the theorems above. *)
+Theorem mon01S_silent_on_model : forall inp, dom01S inp = true -> mon01S inp (run01S inp) = [].
+Proof. exact mon01S_silent_on_model_proof. Qed.
+Print Assumptions mon01S_silent_on_model.
+
+(** the domain, spelled out *)
+Theorem dom01S_spec : forall inp, dom01S inp = true <-> 1 <= sx_nat (sx_nth inp 0).
+Proof. exact dom01S_spec_proof. Qed.
+Print Assumptions dom01S_spec.
+
+(** clause by clause (clause numbers as in Run/R01S.v) *)
+Theorem mon01S_clauses_silent_on_model : forall inp, dom01S inp = true ->
+  ~ In 1%Z (mon01S inp (run01S inp)) /\ ~ In 2%Z (mon01S inp (run01S inp)) /\
+  ~ In 3%Z (mon01S inp (run01S inp)) /\ ~ In 4%Z (mon01S inp (run01S inp)) /\
+  ~ In 5%Z (mon01S inp (run01S inp)).
+Proof. exact mon01S_clauses_silent_on_model_proof. Qed.
+Print Assumptions mon01S_clauses_silent_on_model.
+
+(** Non-vacuity: an input in the domain — restored block, three writers in flight, two of them
+    sharing a sector and completing out of order, one abandoned, events on dead and unknown
+    writers — on which the monitor is silent and the block holds the data; and necessity of the
+    domain: with sector size 0 clause 5 fires on the model's run. *)
+Example dom01S_nonvacuous :
+  dom01S Ex.good = true /\ mon01S Ex.good (run01S Ex.good) = [] /\
+  sx_nth (run01S Ex.good) 1 = of_Zs ([9;9;9;9;9;9;9;9;9;9;9;9] ++ [9;9;9;9;1;2;3;4;5;6;0;0] ++ [9;9;9;9;9;9;9;9;9;9;9;9])%Z.
+Proof. exact dom01S_example. Qed.
+
+Example dom01S_is_needed :
+  let bad := Ex.inp 0 2 3 7 [Ex.al 0] in
+  dom01S bad = false /\ mon01S bad (run01S bad) = [5%Z].
+Proof. exact dom01S_needed. Qed.
